@@ -400,6 +400,15 @@ def verify_function(key, prop_prefix="", replayer=None, only_labels=None, engine
             if status == UNDECIDED:
                 slow_left -= 1
                 undecided_time[0] += dt
+                if undecided_time[0] >= UNDECIDED_BUDGET_S and cand is not None:
+                    # verdict for this clause cannot improve to "discharged"; stop spending on it
+                    agg_time += dt
+                    backends.add(backend)
+                    agg_status = UNDECIDED
+                    outs.append("%s: %s  [remaining paths of this clause not attempted: time budget]" % (txt, o.info))
+                    if cand_model is None:
+                        cand_model, cand_obl = cand, o
+                    break
             agg_time += dt
             backends.add(backend)
             if status == VIOLATED:
@@ -445,11 +454,12 @@ def verify_function(key, prop_prefix="", replayer=None, only_labels=None, engine
     # facts (callee postconditions, heap well-formedness) are added -- otherwise every
     # obligation on it would be discharged for the wrong reason
     vac = []
-    for kind, st2, payload in exits:
+    sample = exits if len(exits) <= 8 else [exits[(i * (len(exits) - 1)) // 7] for i in range(8)]
+    for kind, st2, payload in sample:
         stt, _, _, _, txt, _ = check(st2.pc, z3.BoolVal(False), timeout_ms=1000, quick=True)
         if stt == DISCHARGED:
             vac.append("/".join(st2.trace[-6:]) or "<straight-line>")
-    if vac and len(vac) == len(exits):
+    if vac and len(vac) == len(sample):
         results.append(Result("%s%s.vacuity" % (prop_prefix, short), ERROR, klass="L", backend="z3", function=key,
                               output="the path condition of every exit path is refutable (inconsistent contracts or axioms): %s" % (vac[:4],)))
     dead_note = ""
